@@ -33,7 +33,7 @@ ASSUMPTIONS = ["exact (integer/dyadic) values so that vector sums are order "
 TMP = c01.TMP
 
 FNS = ["2v+1", "square", "neg", "div_sum", "minus_min", "zero", "by_id",
-       "by_md", "zero_some"]
+       "by_md", "zero_some", "indicator", "as_ints"]
 RANKS = ["average", "min", "max", "dense", "ordinal"]
 
 
@@ -106,6 +106,12 @@ def user_fn(name):
         return lambda v, i, md: v * 0
     if name == "zero_some":
         return lambda v, i, md: np.where(v > 2, v, 0.0)
+    if name == "indicator":
+        # (a function may return another element type; what it returns is
+        # what the table then holds, as numbers)
+        return lambda v, i, md: v > 2
+    if name == "as_ints":
+        return lambda v, i, md: (v * 2).astype(np.int64)
     if name == "by_id":
         return lambda v, i, md: v * (len(i) + 1)
     if name == "by_md":
@@ -130,6 +136,10 @@ def ref_vector(name, vec, i, md):
         return [0.0 for _ in vec]
     if name == "zero_some":
         return [x if x > 2 else 0.0 for x in vec]
+    if name == "indicator":
+        return [1.0 if x > 2 else 0.0 for x in vec]
+    if name == "as_ints":
+        return [float(int(x * 2)) for x in vec]
     if name == "by_id":
         return [x * (len(i) + 1) for x in vec]
     if name == "by_md":
